@@ -24,6 +24,9 @@ Fixpoint zs (s : String.string) : str :=
   | String.String a r => Z.of_N (Ascii.N_of_ascii a) :: zs r
   end.
 
+(* literals are evaluated at definition time, so that no Coq string survives into the extracted code *)
+Notation L s := (ltac:(let v := eval vm_compute in (zs s) in exact v)) (only parsing).
+
 Fixpoint str_eqb (a b : str) : bool :=
   match a, b with
   | [], [] => true
@@ -79,10 +82,10 @@ Definition zero_struct (k : nat) : list value := map zero_of (kinds k).
 (* ------------------------------------------------------------------ strconv.ParseBool / ParseInt(s, 10, 64) *)
 (* ParseBool accepts exactly: 1 t T TRUE true True / 0 f F FALSE false False *)
 Definition parse_bool (s : str) : option bool :=
-  if str_eqb s (zs "1") || str_eqb s (zs "t") || str_eqb s (zs "T") ||
-     str_eqb s (zs "TRUE") || str_eqb s (zs "true") || str_eqb s (zs "True") then Some true
-  else if str_eqb s (zs "0") || str_eqb s (zs "f") || str_eqb s (zs "F") ||
-     str_eqb s (zs "FALSE") || str_eqb s (zs "false") || str_eqb s (zs "False") then Some false
+  if str_eqb s (L "1") || str_eqb s (L "t") || str_eqb s (L "T") ||
+     str_eqb s (L "TRUE") || str_eqb s (L "true") || str_eqb s (L "True") then Some true
+  else if str_eqb s (L "0") || str_eqb s (L "f") || str_eqb s (L "F") ||
+     str_eqb s (L "FALSE") || str_eqb s (L "false") || str_eqb s (L "False") then Some false
   else None.
 
 Definition digit (c : Z) (u : uint) : option uint :=
@@ -256,7 +259,7 @@ Definition plain (c : Z) : bool := is_print c && negb (c =? 34) && negb (c =? 39
 Definition render (v : value) : option str :=
   match v with
   | VS s => if forallb plain s then Some (34 :: s ++ [34]) else None
-  | VB b => Some (if b then zs "true" else zs "false")
+  | VB b => Some (if b then L "true" else L "false")
   | VI z => Some (itoa z)
   end.
 
@@ -307,9 +310,9 @@ Record wurl := {
 
 (* the text of a member as FormatURI takes it *)
 Definition text_of (v : value) : str :=
-  match v with VS s => s | VB b => if b then zs "true" else zs "false" | VI z => itoa z end.
+  match v with VS s => s | VB b => if b then L "true" else L "false" | VI z => itoa z end.
 
-Definition key_in (key : str) (l : list String.string) : bool := existsb (fun s => str_eqb key (zs s)) l.
+Definition key_in (key : str) (l : list str) : bool := existsb (str_eqb key) l.
 
 (* accumulator of FormatURI's loop *)
 Record facc := { f_scheme : str; f_user : str; f_pass : str; f_host : str; f_port : str; f_props : list (str * str) }.
@@ -319,19 +322,19 @@ Definition fstep (a : facc) (key : str) (v : str) : facc :=
   match v with
   | [] => a                                                   (* if v == "" { continue } *)
   | _ :: _ =>
-    if key_in key ["scheme"] then
+    if key_in key [L "scheme"] then
       {| f_scheme := v; f_user := f_user a; f_pass := f_pass a; f_host := f_host a; f_port := f_port a; f_props := f_props a |}
-    else if key_in key ["user"; "username"] then
+    else if key_in key [L "user"; L "username"] then
       {| f_scheme := f_scheme a; f_user := v; f_pass := f_pass a; f_host := f_host a; f_port := f_port a; f_props := f_props a |}
-    else if key_in key ["password"; "pass"; "passwd"] then
+    else if key_in key [L "password"; L "pass"; L "passwd"] then
       {| f_scheme := f_scheme a; f_user := f_user a; f_pass := v; f_host := f_host a; f_port := f_port a; f_props := f_props a |}
-    else if key_in key ["host"; "hostname"] then
+    else if key_in key [L "host"; L "hostname"] then
       {| f_scheme := f_scheme a; f_user := f_user a; f_pass := f_pass a; f_host := v; f_port := f_port a; f_props := f_props a |}
-    else if key_in key ["port"] then
+    else if key_in key [L "port"] then
       {| f_scheme := f_scheme a; f_user := f_user a; f_pass := f_pass a; f_host := f_host a; f_port := v; f_props := f_props a |}
     else
-      let pk := if key_in key ["userstorekey"; "key"] then zs "KEY"
-                else if key_in key ["database"; "db"] then zs "database" else key in
+      let pk := if key_in key [L "userstorekey"; L "key"] then L "KEY"
+                else if key_in key [L "database"; L "db"] then L "database" else key in
       {| f_scheme := f_scheme a; f_user := f_user a; f_pass := f_pass a; f_host := f_host a; f_port := f_port a;
          f_props := f_props a ++ [(pk, v)] |}
   end.
@@ -360,7 +363,7 @@ Section URI.
     match floop tab v facc0 with
     | None => None
     | Some a =>
-        if existsb (fun kv => str_eqb (fst kv) (zs "KEY")) (f_props a)
+        if existsb (fun kv => str_eqb (fst kv) (L "KEY")) (f_props a)
         then (* fmt.Sprintf("%s://?%s", scheme, connectProp.Encode()) *)
           Some {| w_scheme := f_scheme a; w_user := None; w_host := []; w_port := []; w_path := [];
                   w_query := encode (f_props a) |}
@@ -383,8 +386,8 @@ Section URI.
     end.
 
   (* ttf["x"].SetString(s): reflect panics unless the tag exists and the member is a string *)
-  Definition set_string (tab : list (str * nat)) (st : list value) (tag : String.string) (s : str) : out (list value) :=
-    match lookup (zs tag) tab with
+  Definition set_string (tab : list (str * nat)) (st : list value) (tag : str) (s : str) : out (list value) :=
+    match lookup tag tab with
     | Some i => match nth_error st i with Some (VS _) => Ok (upd i (VS s) st) | _ => Panic end
     | None => Panic
     end.
@@ -405,15 +408,15 @@ Section URI.
   Definition trim_slash (p : str) : str := match p with 47 :: r => r | _ => p end.   (* strings.TrimPrefix(path, "/") *)
 
   Definition parse_uri_tab (tab : list (str * nat)) (u : wurl) (init : list value) : out (list value) :=
-    bind (set_string tab init "hostname" (w_host u)) (fun st1 =>
-    bind (set_string tab st1 "port" (w_port u)) (fun st2 =>
+    bind (set_string tab init (L "hostname") (w_host u)) (fun st1 =>
+    bind (set_string tab st1 (L "port") (w_port u)) (fun st2 =>
     bind (match w_user u with
           | None => Ok st2
-          | Some (un, pw) => bind (set_string tab st2 "username" (unesc un)) (fun st3 =>
-                                   set_string tab st3 "password" (unesc pw))
+          | Some (un, pw) => bind (set_string tab st2 (L "username") (unesc un)) (fun st3 =>
+                                   set_string tab st3 (L "password") (unesc pw))
           end) (fun st4 =>
-    bind (match lookup (zs "database") tab with
-          | Some _ => set_string tab st4 "database" (trim_slash (unesc (w_path u)))
+    bind (match lookup (L "database") tab with
+          | Some _ => set_string tab st4 (L "database") (trim_slash (unesc (w_path u)))
           | None => Ok st4
           end) (fun st5 =>
     let q := map (fun kv => (unesc (fst kv), unesc (snd kv))) (w_query u) in
